@@ -413,19 +413,21 @@ def main_mc(ctx, pid, bugs, persist):
 def coverage(rows):
     cov = {"mounts_ok": 0, "mounts_refused": 0, "overmounts": 0, "root_mounts": 0, "nested_mounts": 0, "umounts": 0, "wraparounds": 0,
            "table_full": 0, "requests": 0, "vacant_slot_requests": 0, "pseudo_requests": 0, "cross_mount_two_inode": 0,
-           "mountpoint_lookups": 0, "with_own_mapping": 0, "with_global_mapping": 0, "saverestore": 0, "saverestore_v1": 0, "saved_after_wrap_with_mapping_above_next_super": 0, "remounts_in_place": 0,
+           "mountpoint_lookups": 0, "with_own_mapping": 0, "with_global_mapping": 0, "saverestore": 0, "saverestore_v1": 0, "saved_after_wrap_with_mapping_above_next_super": 0, "remounts_in_place": 0, "with_own_empty_range_mapping": 0, "with_own_empty_range_mapping_under_global": 0,
+           "requests_on_empty_range_mount_under_global": 0,
            "requests_after_remount": 0, "umounts_refused": 0, "umounts_refused_with_remove_pseudo_root": 0, "umounts_with_remove_pseudo_root": 0, "ops": {}}
     mounted = {}
     lastidx = 0
     nocc = 0
     gm = False
     wrapped, nexts, mapped = False, 1, {}
-    rm, remounted = False, set()
+    rm, remounted, emptyown = False, set(), set()
     for r in rows:
         e = r.get("e")
         if e == "Reset":
             rm = bool(r["opts"].get("remove_pseudo_root"))
             remounted = set()
+            emptyown = set()
             mounted = {}
             lastidx = 0
             wrapped, nexts, mapped = False, 1, {}
@@ -453,6 +455,13 @@ def coverage(rows):
                     wrapped = True
                     cov["wraparounds"] += 1
                 lastidx = r["idx"]
+                if r["some"] and r["map"]["r"] == {"h": 0, "l": 0}:
+                    cov["with_own_empty_range_mapping"] += 1
+                    if gm:
+                        cov["with_own_empty_range_mapping_under_global"] += 1
+                        emptyown.add(r["idx"])
+                else:
+                    emptyown.discard(r["idx"])
                 if r["some"]:
                     cov["with_own_mapping"] += 1
                 elif gm:
@@ -487,6 +496,8 @@ def coverage(rows):
             i = r["ino"]["idx"]
             if i in remounted:
                 cov["requests_after_remount"] += 1
+            if i in emptyown:
+                cov["requests_on_empty_range_mount_under_global"] += 1
             if i == 0:
                 cov["pseudo_requests"] += 1
             elif i not in mounted.values():
@@ -640,7 +651,8 @@ def run_c14(ctx):
         report(ctx, "C14", rows, viols, allsc, "replay")
         note_drift(ctx, drifts, rows, "c14")
         cov = coverage(rows)
-        gate(ctx, cov, ["with_own_mapping", "with_global_mapping", "overmounts", "wraparounds", "root_mounts", "mountpoint_lookups"])
+        gate(ctx, cov, ["with_own_mapping", "with_global_mapping", "overmounts", "wraparounds", "root_mounts", "mountpoint_lookups",
+                        "with_own_empty_range_mapping_under_global", "requests_on_empty_range_mount_under_global"])
         for op in ("lookup", "getattr", "setattr", "create", "mkdir", "mknod", "symlink", "link", "readdirplus"):
             if not cov["ops"].get(op) and not ctx.violations:
                 raise C.ToolError("coverage gate: no %s request in the validated traces" % op)
@@ -667,7 +679,7 @@ def run_c14(ctx):
         for s in (extra_sc + scs)[:2]:
             ctx.sample({"scenario": s["id"], "g": s["g"], "steps": s["steps"][:5]})
         ctx.assumptions += ["mappings satisfy internal+range <= 2^32 and external+range <= 2^32 (otherwise the library's arithmetic overflows)",
-                            "a per-mount mapping with range 0 is not generated", "owner ids of pseudo directories are not constrained"]
+                            "per-mount mappings include empty ranges (Some((i, e, 0)) translates nothing and replaces the global mapping), single ids and ranges ending at 2^32-1", "owner ids of pseudo directories are not constrained"]
     finally:
         pass
 
